@@ -325,7 +325,7 @@ func runC20(c *engine.Ctx) {
 			}
 			for ri := 0; ri < 2; ri++ {
 				resp := spilledResult(r, ri)
-				if engine.IsNilConst(resp) || seenResp[resp] {
+				if engine.IsNilConst(resp) || seenResp[resp] || alwaysNilResult(resp) {
 					continue
 				}
 				seenResp[resp] = true
@@ -1222,4 +1222,31 @@ func evalModeMap(p *engine.Prog, mg *ssa.Global) string {
 		return fmt.Sprintf("the mode table map has %d entries (5 expected)", entries)
 	}
 	return ""
+}
+
+// alwaysNilResult reports whether v is result #i of a statically resolved call (a local failure helper, say) whose
+// every return yields a nil constant at #i.
+func alwaysNilResult(v ssa.Value) bool {
+	ex, ok := v.(*ssa.Extract)
+	if !ok {
+		return false
+	}
+	call, ok := ex.Tuple.(*ssa.Call)
+	if !ok {
+		return false
+	}
+	callee := engine.CalleeFn(call)
+	if callee == nil || len(callee.Blocks) == 0 {
+		return false
+	}
+	all, any := true, false
+	engine.ForEachInstr(callee, func(in ssa.Instruction) {
+		if r, ok := in.(*ssa.Return); ok && ex.Index < len(r.Results) {
+			any = true
+			if !engine.IsNilConst(spilledResult(r, ex.Index)) {
+				all = false
+			}
+		}
+	})
+	return all && any
 }
